@@ -6,7 +6,7 @@ pub const ALPHA: &[char] = &[
     'a', 'b', 'c', ' ', '\u{3000}', 'あ', '漢', 'é', 'd', 'x', '1', '2', 'い', '字', '𠮷', '😀', 'ア', '-', '.', 'Z',
 ];
 pub const CAT_NAMES: &[&str] = &[
-    "SPACE", "ALPHA", "KANJI", "NUMERIC", "SYMBOL", "HIRAGANA", "KATAKANA", "GREEK", "X1", "X2", "X3", "X4", "X5", "X6", "X7", "X8", "X9",
+    "SPACE", "ALPHA", "KANJI", "NUMERIC", "SYMBOL", "HIRAGANA", "KATAKANA", "GREEK", "X1", "X2", "X3", "X4", "X5", "X6", "X7", "X8", "X9", "X10", "X11", "X12",
 ];
 
 #[derive(Clone, Debug)]
@@ -186,7 +186,10 @@ pub fn gen_conn(rng: &mut Rng, cfg: &GenCfg) -> Conn {
 }
 
 pub fn gen_dict(rng: &mut Rng, cfg: &GenCfg) -> DictSpec {
-    let ncat = rng.below(cfg.max_cats);
+    // now and then a dictionary around the 18-category limit of the packed character information
+    // (ids >= 18 assigned to characters must be rejected by the builder)
+    let many = cfg.max_cats >= 6 && !cfg.clean_space && rng.chance(0.02);
+    let ncat = if many { 16 + rng.below(4) } else { rng.below(cfg.max_cats) };
     let mut cats = vec![Cat { name: "DEFAULT".into(), invoke: rng.chance(0.5), group: rng.chance(0.5), length: rng.below(4) as u16 }];
     for i in 0..ncat {
         cats.push(Cat { name: CAT_NAMES[i].into(), invoke: rng.chance(0.5), group: rng.chance(0.5), length: if rng.chance(0.1) { 15 } else { rng.below(5) as u16 } });
@@ -209,11 +212,19 @@ pub fn gen_dict(rng: &mut Rng, cfg: &GenCfg) -> DictSpec {
             lo = c.saturating_sub(0x40);
             hi = (c + 0x40).min(0xFFFF);
         }
+        if rng.chance(0.04) {
+            // a range reaching the last BMP code point
+            lo = 0xFFF0 + rng.below(16) as u32;
+            hi = 0xFFFF;
+        }
         if !cfg.allow_u0000_range {
             lo = lo.max(1);
         }
         let avail: Vec<usize> = (0..cats.len()).filter(|&k| !(cfg.clean_space && k == 1)).collect();
         let mut cs: Vec<usize> = vec![];
+        if many && rng.chance(0.7) {
+            cs.push(cats.len() - 1 - rng.below(3.min(cats.len() - 1)));
+        }
         for _ in 0..1 + rng.below(3) {
             let k = *rng.pick(&avail);
             if !cs.contains(&k) {
